@@ -422,12 +422,45 @@ func (x *LabelExec) Apply(op drv.Op) (handled bool, v *drv.Violation, err error)
 			x.Skipped++
 			return true, nil, nil
 		}
-		runs := RunsOf(split)
+		// sometimes the posted sparse volume also covers voxels outside the supervoxel
+		// (documented: "any region that falls out of the given supervoxel will be ignored")
+		posted := split
+		if r.IntN(5) == 0 {
+			posted = map[[3]int]bool{}
+			for p := range split {
+				posted[p] = true
+			}
+			off := g.Offset()
+			nx, ny, nz := g.Dims()
+			added := 0
+			for _, p := range pts {
+				for _, d := range [][3]int{{1, 0, 0}, {-1, 0, 0}, {0, 1, 0}, {0, 0, 1}} {
+					q := [3]int{p[0] + d[0], p[1] + d[1], p[2] + d[2]}
+					lx, ly, lz := q[0]-off[0], q[1]-off[1], q[2]-off[2]
+					if lx < 0 || ly < 0 || lz < 0 || lx >= nx || ly >= ny || lz >= nz || set[q] || posted[q] {
+						continue
+					}
+					if added < 40 {
+						posted[q] = true
+						added++
+					}
+				}
+			}
+			if added > 0 {
+				w.Stats.Probe("split-volume-partly-outside-supervoxel")
+			}
+		}
+		runs := RunsOf(posted)
 		st, body, e := w.HTTP("POST", fmt.Sprintf("%s/split-supervoxel/%d", x.base(op.V), sv), EncodeRLEs(runs))
 		if e != nil {
 			return true, nil, e
 		}
 		if st != 200 {
+			if len(posted) != len(split) {
+				// refused: then nothing may have changed (checked by the sweep that follows)
+				w.Stats.Probe("split-partly-outside-refused")
+				return true, nil, nil
+			}
 			return true, x.viol("write-ack", "valid split-supervoxel refused", fmt.Sprintf("split-supervoxel %d (%d of %d voxels) -> %d %s", sv, len(split), len(pts), st, trunc(body))), nil
 		}
 		resp := parseMutResp(body)
